@@ -676,6 +676,45 @@ fn rot_case(cfg: &Cfg, grp: &str, case: u64, rep: &mut Report, rng: &mut Rng, co
             }
         }
     }
+    // ---- the tool's own polynomial entry points (apply / apply_p / apply_ps) on RNS polynomial stacks:
+    //      pcount polynomials x k moduli, pcount != k in most draws; every component must be the automorphism
+    //      X -> X^elt of the matching input component modulo the matching modulus, destination pre-filled with garbage
+    {
+        let qs: Vec<heathcliff::Modulus> = kcd.parms().coeff_modulus().to_vec();
+        for round in 0..3 {
+            let k = 1 + rng.usize_below(qs.len());
+            let pcount = 1 + (round + rng.usize_below(2)) % 3;
+            let moduli = &qs[..k];
+            let elt = if round == 0 || nsteps == 0 { 2 * n - 1 } else { match lib(|| tool.get_elt_from_step(step_of(rng.usize_below(nsteps), h))) { Ok(e) => e, Err(_) => 3 } };
+            let mut polys = vec![0u64; pcount * k * n];
+            for pi in 0..pcount { for j in 0..k { let q = moduli[j].value(); for i in 0..n {
+                polys[(pi * k + j) * n + i] = match rng.below(8) { 0 => 0, 1 => q - 1, _ => rng.below(q) };
+            } } }
+            let want: Vec<u64> = (0..pcount * k).flat_map(|c| refm::automorphism(&polys[c * n..(c + 1) * n], elt, moduli[c % k].value())).collect();
+            let class = format!("pcount={}|k={}", pcount, if k == pcount { "pcount" } else if k < pcount { "<pcount" } else { ">pcount" });
+            let inp = format!("pcount={} k={} elt={}", pcount, k, elt);
+            let mut out = vec![0x5a5a_5a5a_5a5a_5a5au64; pcount * k * n];
+            if call!(x, rep, "GaloisTool::apply_ps", &class, &inp, tool.apply_ps(&polys, pcount, elt, moduli, &mut out)).is_some() {
+                rep.count("tool_entry_points", "apply_ps");
+                rep.count("apply_ps_shapes(pcount_vs_moduli)", &class);
+                if out != want {
+                    let c = (0..pcount * k).find(|&c| out[c * n..(c + 1) * n] != want[c * n..(c + 1) * n]).unwrap();
+                    x.viol(rep, "GaloisTool::apply_ps", &class, "value", format!("apply_ps({}) component {} (polynomial {}, modulus #{}) is not the automorphism X->X^{} of the input component (first difference at coefficient {:?}: got {}, expected {})",
+                        inp, c, c / k, c % k, elt, first_diff(&out[c * n..(c + 1) * n], &want[c * n..(c + 1) * n]), tr(&out[c * n..(c + 1) * n]), tr(&want[c * n..(c + 1) * n])), json!({"pcount": pcount, "k": k, "elt": elt}));
+                }
+            }
+            let mut out1 = vec![0x5a5a_5a5a_5a5a_5a5au64; k * n];
+            if call!(x, rep, "GaloisTool::apply_p", &class, &inp, tool.apply_p(&polys[..k * n], elt, moduli, &mut out1)).is_some() {
+                rep.count("tool_entry_points", "apply_p");
+                if out1[..] != want[..k * n] { x.viol(rep, "GaloisTool::apply_p", &class, "value", format!("apply_p({}) is not the per-modulus automorphism X->X^{} of the input: got {}, expected {}", inp, elt, tr(&out1), tr(&want[..k * n])), json!({"k": k, "elt": elt})); }
+            }
+            let mut out0 = vec![0x5a5a_5a5a_5a5a_5a5au64; n];
+            if call!(x, rep, "GaloisTool::apply", &class, &inp, tool.apply(&polys[..n], elt, &moduli[0], &mut out0)).is_some() {
+                rep.count("tool_entry_points", "apply");
+                if out0[..] != want[..n] { x.viol(rep, "GaloisTool::apply", &class, "value", format!("apply({}) is not the automorphism X->X^{} of the input: got {}, expected {}", inp, elt, tr(&out0), tr(&want[..n])), json!({"elt": elt})); }
+            }
+        }
+    }
     // ---- steps outside 0<|s|<N/2 are outside the documented domain: executed, not judged
     for s in [h as isize, -(h as isize)] { let _ = lib(|| tool.get_elt_from_step(s)); rep.out_of_precondition += 1; }
 
